@@ -29,7 +29,14 @@ def clean():
 
 
 def strip(cmd):
-    parts = [x.strip() for x in cmd.split("&&")]
+    def _pre(x):
+        m = re.search(r"cargo\s+(test|nextest|check|run)\b.*", x)
+        if m:
+            x = m.group(0)
+            x = re.sub(r"\s{2,}\(.*$", "", x)
+            x = re.sub(r"\s+\((after|without|with|run|note)\b.*$", "", x)
+        return x
+    parts = [_pre(x.strip()) for x in cmd.split("&&")]
     keep = [x for x in parts if x and not x.startswith("cd ") and not x.startswith(". ") and not x.startswith("source ")
             and not x.startswith("export ") and not x.startswith("mkdir ") and not x.startswith("cp ") and "git apply" not in x
             and "git checkout" not in x and "git stash" not in x and "git clean" not in x]
